@@ -19,28 +19,51 @@ Definition is_cmd (c : Z) : bool :=
   (c =? ch_plus) || (c =? ch_comma) || (c =? ch_minus) || (c =? ch_dot) ||
   (c =? ch_lt) || (c =? ch_gt) || (c =? ch_open) || (c =? ch_close).
 
-(** Bracket matching with an explicit stack; [cur] is the reversed list of commands of the
-    innermost open loop. [None] iff the brackets are unbalanced. *)
-Fixpoint parse_ast (cs : list Z) (cur : list cmd) (stack : list (list cmd)) : option (list cmd) :=
-  match cs with
-  | [] => match stack with [] => Some (rev cur) | _ :: _ => None end
-  | c :: cs' =>
-      if c =? ch_plus then parse_ast cs' (Inc :: cur) stack
-      else if c =? ch_minus then parse_ast cs' (Dec :: cur) stack
-      else if c =? ch_lt then parse_ast cs' (Left :: cur) stack
-      else if c =? ch_gt then parse_ast cs' (Right :: cur) stack
-      else if c =? ch_dot then parse_ast cs' (Out :: cur) stack
-      else if c =? ch_comma then parse_ast cs' (In :: cur) stack
-      else if c =? ch_open then parse_ast cs' [] (cur :: stack)
-      else if c =? ch_close then
-        match stack with
-        | [] => None
-        | parent :: stack' => parse_ast cs' (Loop (rev cur) :: parent) stack'
-        end
-      else parse_ast cs' cur stack
+(** Recursive-descent bracket matching. [parse_seg fuel cs] reads commands up to the first
+    unmatched ']' (or the end of the text) and returns them with the remaining text, which is
+    empty or starts with that ']'.  [None]: fuel exhausted or a '[' without its ']'. *)
+Fixpoint parse_seg (fuel : nat) (cs : list Z) : option (list cmd * list Z) :=
+  match fuel with
+  | O => None
+  | S f =>
+      match cs with
+      | [] => Some ([], [])
+      | c :: r =>
+          if c =? ch_close then Some ([], cs)
+          else if c =? ch_open then
+            match parse_seg f r with
+            | Some (body, after) =>
+                match after with
+                | [] => None
+                | _ :: r2 =>
+                    match parse_seg f r2 with
+                    | Some (more, a) => Some (Loop body :: more, a)
+                    | None => None
+                    end
+                end
+            | None => None
+            end
+          else
+            match parse_seg f r with
+            | Some (more, a) =>
+                if c =? ch_plus then Some (Inc :: more, a)
+                else if c =? ch_minus then Some (Dec :: more, a)
+                else if c =? ch_lt then Some (Left :: more, a)
+                else if c =? ch_gt then Some (Right :: more, a)
+                else if c =? ch_dot then Some (Out :: more, a)
+                else if c =? ch_comma then Some (In :: more, a)
+                else Some (more, a)
+            | None => None
+            end
+      end
   end.
 
-Definition ast_of_source (cs : list Z) : option (list cmd) := parse_ast cs [] [].
+(** the whole text must be consumed: [None] iff the brackets are unbalanced *)
+Definition ast_of_source (cs : list Z) : option (list cmd) :=
+  match parse_seg (S (length cs)) cs with
+  | Some (p, []) => Some p
+  | _ => None
+  end.
 
 (** [balanced]: depth counter never negative and zero at the end. *)
 Fixpoint balanced_from (cs : list Z) (depth : nat) : bool :=
